@@ -199,8 +199,8 @@ macro_rules! cov {
 /// `name => body(args...)` runs the generic `body::<S: Src>(&mut s, args...)` under the four standard stubs.
 #[macro_export]
 macro_rules! harnesses {
-    ($( $(@$q:ident)? $name:ident => $f:ident ( $($arg:expr),* ) ; )*) => {
-        $( $crate::one_harness!($(@$q)? $name => $f($($arg),*)); )*
+    ($( $(@$q:ident)? $name:ident [ $u:literal ] => $f:ident ( $($arg:expr),* ) ; )*) => {
+        $( $crate::one_harness!($(@$q)? $name [$u] => $f($($arg),*)); )*
         pub const REPLAY: &[(&str, $crate::common::ReplayFn)] = &[
             $( (stringify!($name), |s: &mut $crate::common::ReplaySrc| $f(s $(, $arg)*)), )*
         ];
@@ -209,11 +209,13 @@ macro_rules! harnesses {
 
 /// `@quick` harnesses are always compiled; the others only with the cargo feature `thorough`
 /// (Kani's compile time grows with the number of harnesses in the crate: ~3.5 s each).
+/// `[n]` is the loop-unwinding bound of the harness (unwinding assertions are on).
 #[macro_export]
 macro_rules! one_harness {
-    (@quick $name:ident => $f:ident ( $($arg:expr),* )) => {
+    (@quick $name:ident [ $u:literal ] => $f:ident ( $($arg:expr),* )) => {
         #[cfg(kani)]
         #[kani::proof]
+        #[kani::unwind($u)]
         #[kani::stub(alloc::fmt::format, $crate::common::stubs::fmt_stub)]
         #[kani::stub(std::backtrace::Backtrace::capture, $crate::common::stubs::bt_stub)]
         #[kani::stub(core::error::request_ref, $crate::common::stubs::request_ref_stub)]
@@ -223,9 +225,10 @@ macro_rules! one_harness {
             $f(&mut s $(, $arg)*);
         }
     };
-    ($name:ident => $f:ident ( $($arg:expr),* )) => {
+    ($name:ident [ $u:literal ] => $f:ident ( $($arg:expr),* )) => {
         #[cfg(all(kani, feature = "thorough"))]
         #[kani::proof]
+        #[kani::unwind($u)]
         #[kani::stub(alloc::fmt::format, $crate::common::stubs::fmt_stub)]
         #[kani::stub(std::backtrace::Backtrace::capture, $crate::common::stubs::bt_stub)]
         #[kani::stub(core::error::request_ref, $crate::common::stubs::request_ref_stub)]
